@@ -340,6 +340,336 @@ theorem dense_forEach_logStop (s : DStore) (bins : List (Int × Rat)) (hb : s.bi
 
 end Dense
 
+/-! ## 2. the paginated store
+
+The proof of the pure-callback version (`DDS.GenPag.forEach_eq_visit`) with the state threaded: the loop invariant is
+`buffer = pre ++ expand rs ∧ RunsOK rs` (consumed prefix, remaining runs), `bufferPos = pre.length`; the run
+decomposition (`expand`, `RunsOK`, `takeLt`, `afterRest`, `mergedN`, `emitted`, `remaining`) is reused from there. -/
+
+section Pag
+open DDS.GenPag
+open DDS.Gen.PaginatedIter
+open DDS.PStore (castRuns runs mergeIter linesOf linesFrom)
+
+theorem bindL_congr {α τ ρ : Type} (x : Res α) (k k' : α → Loop τ ρ) (h : ∀ a, k a = k' a) :
+    x.bindL k = x.bindL k' := by
+  cases x with
+  | ok a => exact h a
+  | panic => rfl
+  | nofuel => rfl
+
+theorem visitSL_congr {σ τ ρ : Type} (f : σ → Int → Rat → Res (σ × Bool)) (mk : σ → ρ) (l : List (Int × Rat))
+    (k k' : σ → Loop τ ρ) (h : ∀ st, k st = k' st) (st : σ) : visitSL f mk st l k = visitSL f mk st l k' := by
+  have : k = k' := funext h
+  rw [this]
+
+/-! ### the run scanners `loop6` / `loop2` -/
+
+theorem pg_loop6_run {σ : Type} (g : GP) (st : Nat) (y : Int) (hst : g.buffer[st]? = some y) :
+    ∀ (m p fuel : Nat), (∀ j, p ≤ j → j < p + m → g.buffer[j]? = some y) →
+      g.buffer[p + m]? ≠ some y → m + 1 ≤ fuel →
+      BufferedPaginatedStore.ForEach.loop6 (σ := σ) g (st : Int) fuel (p : Int) = .done ((p + m : Nat) : Int) := by
+  intro m
+  induction m with
+  | zero =>
+    intro p fuel _ hend hf
+    obtain ⟨fuel, rfl⟩ : ∃ k, fuel = k + 1 := ⟨fuel - 1, by omega⟩
+    unfold BufferedPaginatedStore.ForEach.loop6
+    by_cases hp : p < g.buffer.length
+    · obtain ⟨z, hz⟩ : ∃ z, g.buffer[p]? = some z := ⟨g.buffer[p], List.getElem?_eq_getElem hp⟩
+      have hne : z ≠ y := by
+        intro h; subst h; exact hend (by simpa using hz)
+      have hb : (z == y) = false := by simpa using hne
+      simp only [GoSem.len, fe_idx_nat, hst, hz, optL_some, hb]
+      rw [if_pos (by simpa using hp)]
+      rfl
+    · rw [if_neg (by simpa [GoSem.len] using hp)]
+      rfl
+  | succ m ih =>
+    intro p fuel hrun hend hf
+    obtain ⟨fuel, rfl⟩ : ∃ k, fuel = k + 1 := ⟨fuel - 1, by omega⟩
+    have hp : g.buffer[p]? = some y := hrun p (Nat.le_refl _) (by omega)
+    obtain ⟨hlt, _⟩ := List.getElem?_eq_some_iff.1 hp
+    have e : (p : Int) + 1 = ((p + 1 : Nat) : Int) := by omega
+    unfold BufferedPaginatedStore.ForEach.loop6
+    simp only [GoSem.len, fe_idx_nat, hst, hp, optL_some, beq_self_eq_true, if_true]
+    rw [if_pos (by simpa using hlt), e, ih (p + 1) fuel (fun j h1 h2 => hrun j (by omega) (by omega))
+      (by rw [show p + 1 + m = p + (m + 1) by omega]; exact hend) (by omega)]
+    congr 2; omega
+
+theorem pg_loop2_eq_loop6 {σ : Type} (g : GP) (st : Int) : ∀ (fuel : Nat) (p : Int),
+    BufferedPaginatedStore.ForEach.loop2 (σ := σ) g st fuel p
+      = BufferedPaginatedStore.ForEach.loop6 (σ := σ) g st fuel p := by
+  intro fuel
+  induction fuel with
+  | zero => intro p; rfl
+  | succ n ih =>
+    intro p
+    unfold BufferedPaginatedStore.ForEach.loop2 BufferedPaginatedStore.ForEach.loop6
+    simp only [ih]
+
+/-! ### `loop5`: drain the runs up to a page line -/
+
+theorem pg_loop5_spec {σ : Type} (g : GP) (index : Int) (f : σ → Int → Rat → Res (σ × Bool)) :
+    ∀ (rs : List (Int × Nat)) (pre : List Int) (fuel : Nat) (st0 : Int),
+      g.buffer = pre ++ expand rs → RunsOK rs → (expand rs).length + 1 ≤ fuel →
+      ∃ (pre' : List Int) (st1 : Int), g.buffer = pre' ++ expand (afterRest index rs) ∧
+        (pre'.length : Int) - st1 = (mergedN index rs : Int) ∧
+        ∀ st : σ, BufferedPaginatedStore.ForEach.loop5 g index f fuel st0 (pre.length : Int) st
+          = visitSL f (fun x => (x, g)) st (castRuns (takeLt index rs))
+              (fun st' => .done (st1, (pre'.length : Int), st')) := by
+  intro rs
+  induction rs with
+  | nil =>
+    intro pre fuel st0 hB _ hf
+    obtain ⟨fuel, rfl⟩ : ∃ k, fuel = k + 1 := ⟨fuel - 1, by omega⟩
+    refine ⟨pre, (pre.length : Int), hB, by simp [mergedN], ?_⟩
+    intro st
+    unfold BufferedPaginatedStore.ForEach.loop5
+    have hl : g.buffer.length = pre.length := by rw [hB]; simp
+    simp only [GoSem.len, hl]
+    rw [if_pos (by simp)]
+    rfl
+  | cons r more ih =>
+    intro pre fuel st0 hB hok hf
+    obtain ⟨y, n⟩ := r
+    obtain ⟨hget, hend⟩ := fe_run_facts g.buffer pre y n more hB hok
+    have hn : 0 < n := hok.1
+    have hmore : RunsOK more := hok.2.2
+    have hlen : g.buffer.length = pre.length + n + (expand more).length := by
+      rw [hB, expand_cons]; simp; omega
+    rw [expand_cons] at hf
+    simp only [List.length_append, List.length_replicate] at hf
+    obtain ⟨fuel, rfl⟩ : ∃ k, fuel = k + 1 := ⟨fuel - 1, by omega⟩
+    have h0 : g.buffer[pre.length]? = some y := by simpa using hget 0 hn
+    by_cases hlt : index < y
+    · obtain ⟨e1, e2, e3⟩ := pieces_gt index y n more hlt
+      refine ⟨pre, (pre.length : Int), by rw [e2]; exact hB, by rw [e3]; simp, ?_⟩
+      intro st
+      unfold BufferedPaginatedStore.ForEach.loop5
+      simp only [GoSem.len, fe_idx_nat, h0, optL_some]
+      rw [if_neg (by simp; omega), if_pos (by simpa using hlt), e1]
+      rfl
+    · have e : (pre.length : Int) + 1 = ((pre.length + 1 : Nat) : Int) := by omega
+      have h6 := pg_loop6_run (σ := σ) g pre.length y h0 (n - 1) (pre.length + 1) fuel
+        (fun j h1 h2 => by
+          have := hget (j - pre.length) (by omega)
+          rwa [show pre.length + (j - pre.length) = j by omega] at this)
+        (by rw [show pre.length + 1 + (n - 1) = pre.length + n by omega]; exact hend) (by omega)
+      have epos : pre.length + 1 + (n - 1) = (pre ++ List.replicate n y).length := by simp; omega
+      rw [epos] at h6
+      have hB' : g.buffer = (pre ++ List.replicate n y) ++ expand more := by
+        rw [hB, expand_cons]; simp
+      by_cases heq : y = index
+      · subst heq
+        obtain ⟨e1, e2, e3⟩ := pieces_eq y n more
+        refine ⟨pre ++ List.replicate n y, (pre.length : Int), by rw [e2]; exact hB', by rw [e3]; simp, ?_⟩
+        intro st
+        unfold BufferedPaginatedStore.ForEach.loop5
+        simp only [GoSem.len, fe_idx_nat, h0, optL_some]
+        rw [if_neg (by simp; omega), if_neg (by simp), e, h6, e1]
+        simp [Loop.elimL, visitSL]
+      · obtain ⟨e1, e2, e3⟩ := pieces_lt index y n more (by omega)
+        obtain ⟨pre', st1, h1, h2, h3⟩ := ih (pre ++ List.replicate n y) fuel (pre.length : Int) hB' hmore (by omega)
+        refine ⟨pre', st1, by rw [e2]; exact h1, by rw [e3]; exact h2, ?_⟩
+        intro st
+        have hb : (y == index) = false := by simpa using heq
+        have ecnt : (((pre ++ List.replicate n y).length : Int) - (pre.length : Int)) = (n : Int) := by
+          simp
+        unfold BufferedPaginatedStore.ForEach.loop5
+        simp only [GoSem.len, fe_idx_nat, h0, optL_some]
+        rw [if_neg (by simp; omega), if_neg (by simpa using hlt), e, h6, e1]
+        simp only [Loop.elimL, hb, castRuns, List.map_cons, visitSL, ecnt, Bool.false_eq_true, if_false]
+        apply bindL_congr
+        rintro ⟨st', b⟩
+        cases b with
+        | true => rfl
+        | false => exact h3 st'
+
+/-! ### `loop4` (one page), `loop3` (all pages), `loop1` (the rest of the buffer) -/
+
+theorem pg_loop4_spec {σ : Type} (s : PStore) (cap : Int) (off : Int) (f : σ → Int → Rat → Res (σ × Bool))
+    (fuel : Nat) (hf : (toGen s cap).buffer.length + 1 ≤ fuel) :
+    ∀ (ys : List Rat) (m : Nat) (rs : List (Int × Nat)) (pre : List Int),
+      (toGen s cap).buffer = pre ++ expand rs → RunsOK rs →
+      ∃ pre' : List Int,
+        (toGen s cap).buffer = pre' ++ expand (remaining (linesOf s (s.minPageIndex + off) ys m) rs) ∧
+        ∀ st : σ, BufferedPaginatedStore.ForEach.loop4 fuel (toGen s cap) off f ys (m : Int) (pre.length : Int) st
+          = visitSL f (fun x => (x, toGen s cap)) st (emitted (linesOf s (s.minPageIndex + off) ys m) rs)
+              (fun st' => .done ((pre'.length : Int), st')) := by
+  intro ys
+  induction ys with
+  | nil =>
+    intro m rs pre hB _
+    exact ⟨pre, hB, fun st => rfl⟩
+  | cons y ys ih =>
+    intro m rs pre hB hok
+    have e : (m : Int) + 1 = ((m + 1 : Nat) : Int) := by omega
+    rw [PStore.linesOf_cons]
+    by_cases hc : y = 0
+    · have hb : (y == (0 : Rat)) = true := by simpa using hc
+      obtain ⟨pre', h4, h5⟩ := ih (m + 1) rs pre hB hok
+      refine ⟨pre', by simpa only [remaining, if_pos hc] using h4, ?_⟩
+      intro st
+      unfold BufferedPaginatedStore.ForEach.loop4
+      simp only [hb, if_true, emitted, if_pos hc]
+      rw [e]
+      exact h5 st
+    · have hb : (y == (0 : Rat)) = false := by simpa using hc
+      obtain ⟨pre1, st1, h1, h2, h3⟩ := pg_loop5_spec (toGen s cap) (s.index (s.minPageIndex + off) m) f rs pre fuel 0
+        hB hok (by have := expand_length_le _ _ _ hB; omega)
+      obtain ⟨pre', h4, h5⟩ := ih (m + 1) _ pre1 h1 (runsOK_afterRest _ rs hok)
+      refine ⟨pre', by simpa only [remaining, if_neg hc] using h4, ?_⟩
+      intro st
+      unfold BufferedPaginatedStore.ForEach.loop4
+      simp only [hb, emitted, if_neg hc, toGen_minPageIndex, fe_index_eq, Bool.false_eq_true, if_false]
+      rw [h3 st, elimL_visitSL, visitSL_append]
+      apply visitSL_congr
+      intro st'
+      simp only [Loop.elimL, visitSL, h2]
+      apply bindL_congr
+      rintro ⟨st'', b⟩
+      cases b with
+      | true => rfl
+      | false =>
+        simp only [Bool.false_eq_true, if_false]
+        rw [e]
+        exact h5 st''
+
+theorem pg_loop3_spec {σ : Type} (s : PStore) (cap : Int) (f : σ → Int → Rat → Res (σ × Bool)) (fuel : Nat)
+    (hf : (toGen s cap).buffer.length + 1 ≤ fuel) :
+    ∀ (xs : List (Array Rat)) (n : Nat) (rs : List (Int × Nat)) (pre : List Int),
+      (toGen s cap).buffer = pre ++ expand rs → RunsOK rs →
+      ∃ pre' : List Int,
+        (toGen s cap).buffer = pre' ++ expand (remaining (linesFrom s xs n) rs) ∧
+        ∀ st : σ, BufferedPaginatedStore.ForEach.loop3 fuel (toGen s cap) f (xs.map Array.toList) (n : Int)
+            (pre.length : Int) st
+          = visitSL f (fun x => (x, toGen s cap)) st (emitted (linesFrom s xs n) rs)
+              (fun st' => .done ((pre'.length : Int), st')) := by
+  intro xs
+  induction xs with
+  | nil =>
+    intro n rs pre hB _
+    exact ⟨pre, hB, fun st => rfl⟩
+  | cons pg xs ih =>
+    intro n rs pre hB hok
+    have e : (n : Int) + 1 = ((n + 1 : Nat) : Int) := by omega
+    rw [PStore.linesFrom_cons, emitted_append, remaining_append]
+    obtain ⟨pre1, h1, h2⟩ := pg_loop4_spec s cap (n : Int) f fuel hf pg.toList 0 rs pre hB hok
+    obtain ⟨pre', h3, h4⟩ := ih (n + 1) _ pre1 h1 (runsOK_remaining _ rs hok)
+    refine ⟨pre', h3, ?_⟩
+    intro st
+    simp only [List.map_cons]
+    unfold BufferedPaginatedStore.ForEach.loop3
+    have h2' := h2 st
+    simp only [Int.natCast_zero] at h2'
+    rw [h2', elimL_visitSL, visitSL_append]
+    apply visitSL_congr
+    intro st'
+    simp only [Loop.elimL]
+    rw [e]
+    exact h4 st'
+
+theorem pg_loop1_spec {σ : Type} (g : GP) (f : σ → Int → Rat → Res (σ × Bool)) :
+    ∀ (rs : List (Int × Nat)) (pre : List Int) (fuel : Nat),
+      g.buffer = pre ++ expand rs → RunsOK rs → (expand rs).length + 1 ≤ fuel →
+      ∀ st : σ, BufferedPaginatedStore.ForEach.loop1 g f fuel (pre.length : Int) st
+        = visitSL f (fun x => (x, g)) st (castRuns rs) (fun st' => .done ((g.buffer.length : Int), st')) := by
+  intro rs
+  induction rs with
+  | nil =>
+    intro pre fuel hB _ hf st
+    obtain ⟨fuel, rfl⟩ : ∃ k, fuel = k + 1 := ⟨fuel - 1, by omega⟩
+    have hl : g.buffer.length = pre.length := by rw [hB]; simp
+    unfold BufferedPaginatedStore.ForEach.loop1
+    simp only [GoSem.len, hl]
+    rw [if_neg (by simp)]
+    rfl
+  | cons r more ih =>
+    intro pre fuel hB hok hf st
+    obtain ⟨y, n⟩ := r
+    obtain ⟨hget, hend⟩ := fe_run_facts g.buffer pre y n more hB hok
+    have hn : 0 < n := hok.1
+    have hmore : RunsOK more := hok.2.2
+    have hlen : g.buffer.length = pre.length + n + (expand more).length := by
+      rw [hB, expand_cons]; simp; omega
+    rw [expand_cons] at hf
+    simp only [List.length_append, List.length_replicate] at hf
+    obtain ⟨fuel, rfl⟩ : ∃ k, fuel = k + 1 := ⟨fuel - 1, by omega⟩
+    have h0 : g.buffer[pre.length]? = some y := by simpa using hget 0 hn
+    unfold BufferedPaginatedStore.ForEach.loop1
+    have hlt : decide ((pre.length : Int) < GoSem.len g.buffer) = true := by
+      simp [GoSem.len]; omega
+    rw [if_pos hlt]
+    have e : (pre.length : Int) + 1 = ((pre.length + 1 : Nat) : Int) := by omega
+    simp only []
+    rw [e, pg_loop2_eq_loop6, pg_loop6_run g pre.length y h0 (n - 1) (pre.length + 1) fuel
+      (fun j h1 h2 => by
+        have := hget (j - pre.length) (by omega)
+        rwa [show pre.length + (j - pre.length) = j by omega] at this)
+      (by rw [show pre.length + 1 + (n - 1) = pre.length + n by omega]; exact hend) (by omega)]
+    have epos : pre.length + 1 + (n - 1) = (pre ++ List.replicate n y).length := by simp; omega
+    have hB' : g.buffer = (pre ++ List.replicate n y) ++ expand more := by
+      rw [hB, expand_cons]; simp
+    have ecnt : (((pre ++ List.replicate n y).length : Int) - (pre.length : Int)) = (n : Int) := by
+      simp
+    simp only [Loop.elimL, fe_idx_nat, h0, optL_some, epos, ecnt, castRuns, List.map_cons, visitSL]
+    apply bindL_congr
+    rintro ⟨st', b⟩
+    cases b with
+    | true => rfl
+    | false => exact ih (pre ++ List.replicate n y) fuel hB' hmore (by omega) st'
+
+/-! ### `ForEach` -/
+
+/-- MAIN (paginated, every store, capacity, visitor; no invariant): the regenerated stateful `ForEach` is the
+    stop-aware fold over the model's `binsList`, and returns the store with its buffer sorted -/
+theorem pag_forEach_eq_visitS {σ : Type} (s : PStore) (cap : Int) (st : σ) (f : σ → Int → Rat → Res (σ × Bool))
+    (fuel : Nat) (hf : forEachFuel s ≤ fuel) :
+    BufferedPaginatedStore.ForEach fuel (toGen s cap) st f
+      = (visitS f st s.binsList).bind (fun st' => .ok (st', toGen s.sortRead cap)) := by
+  unfold BufferedPaginatedStore.ForEach
+  simp only [fe_sortBuffer_toGen]
+  have hB : (toGen s.sortRead cap).buffer = [] ++ expand (runs (PStore.sortInts s.buffer)) := by
+    rw [expand_runs]; rfl
+  have hlen : (toGen s.sortRead cap).buffer.length + 1 ≤ fuel := by
+    show (PStore.sortInts s.buffer).length + 1 ≤ fuel
+    rw [PStore.length_sortInts]; exact hf
+  obtain ⟨pre', h1, h2⟩ := pg_loop3_spec s.sortRead cap f fuel hlen s.pages.toList 0 _ [] hB (runsOK_runs _)
+  have h2' : BufferedPaginatedStore.ForEach.loop3 fuel (toGen s.sortRead cap) f (toGen s.sortRead cap).pages 0 0 st
+      = visitSL f (fun x => (x, toGen s.sortRead cap)) st
+          (emitted (linesFrom s.sortRead s.pages.toList 0) (runs (PStore.sortInts s.buffer)))
+          (fun st' => .done ((pre'.length : Int), st')) := h2 st
+  have h3 := pg_loop1_spec (toGen s.sortRead cap) f _ pre' fuel h1 (runsOK_remaining _ _ (runsOK_runs _))
+    (by have := expand_length_le _ _ _ h1; omega)
+  rw [h2', elim_visitSL]
+  simp only [Loop.elim_done, h3, elim_visitSL]
+  rw [← visitSR_append]
+  have e : s.binsList = emitted (linesFrom s.sortRead s.pages.toList 0) (runs (PStore.sortInts s.buffer)) ++
+      castRuns (remaining (linesFrom s.sortRead s.pages.toList 0) (runs (PStore.sortInts s.buffer))) := by
+    rw [← mergeIter_split]; rfl
+  rw [e]
+  exact visitSR_eq_visitS f (fun x => (x, toGen s.sortRead cap)) _ st
+
+/-- (a) paginated: the collecting visitor ends with exactly the model's `binsList` -/
+theorem pag_forEach_collect (s : PStore) (cap : Int) (acc : List (Int × Rat)) (fuel : Nat)
+    (hf : forEachFuel s ≤ fuel) :
+    BufferedPaginatedStore.ForEach fuel (toGen s cap) acc collect
+      = .ok (acc ++ s.binsList, toGen s.sortRead cap) := by
+  rw [pag_forEach_eq_visitS s cap acc collect fuel hf, visitS_collect]
+  rfl
+
+/-- (b) paginated: a visitor that stops at the first bin satisfying `p` is called exactly on the bins up to and
+    including that one -/
+theorem pag_forEach_logStop (s : PStore) (cap : Int) (p : Int → Rat → Bool) (acc : List (Int × Rat)) (fuel : Nat)
+    (hf : forEachFuel s ≤ fuel) :
+    BufferedPaginatedStore.ForEach fuel (toGen s cap) acc (logStop p)
+      = .ok (acc ++ uptoFirst p s.binsList, toGen s.sortRead cap) := by
+  rw [pag_forEach_eq_visitS s cap acc (logStop p) fuel hf, visitS_logStop]
+  rfl
+
+end Pag
+
 /-! ## 3. the sparse store -/
 
 section Sparse
